@@ -15,6 +15,7 @@ import PrologVerif.Driver.C15
 import PrologVerif.Driver.C16
 import PrologVerif.Driver.C09
 import PrologVerif.Driver.C20
+import PrologVerif.Driver.C17
 open PrologVerif PrologVerif.Driver
 
 def handlers : List (String × Handler) :=
@@ -45,7 +46,9 @@ def handlers : List (String × Handler) :=
     ("c16.rel", C16.handler),
     ("c09.hist", C09.handler),
     ("c09.hist.pinned", C09.handlerPinned),
-    ("c20.load", C20.handler) ]
+    ("c20.load", C20.handler),
+    ("c17.expand", C17.handlerExpand),
+    ("c17.lang", C17.handlerLang) ]
 
 partial def loop (h : IO.FS.Stream) (out : IO.FS.Stream) (f : Handler) : IO Unit := do
   let line ← h.getLine
